@@ -38,13 +38,13 @@ def c13_groups(tier):
 
 KIND_OPTS = {
     'String': {'len': [1, 2]}, 'NumberSequence': {'len': [1, 2]}, 'ColorSequence': {'len': [1, 2]}, 'PhysicalProperties': {'custom': [True, False]},
-    'CFrame': {'rot': [0, 2]}, 'BrickColor': {'numbers': [194, 1032]}, 'Font': {'weight': [700, 400], 'style': [1, 0], 'face': [1, 0]},
+    'CFrame': {'rot': [0, 2]}, 'BrickColor': {'numbers': [194, 1032]}, 'Font': {'weight': [700, 400], 'style': [1, 0], 'face': [1, 0]}, 'OptionalCFrame': {'present': [True, False]},
 }
 
 
 KIND_OPTS3 = {
     'String': {'len': [0, 3, 1]}, 'NumberSequence': {'len': [0, 3, 1]}, 'ColorSequence': {'len': [2, 0, 1]}, 'PhysicalProperties': {'custom': [False, True, True]},
-    'CFrame': {'rot': [0, 0, 0]}, 'BrickColor': {'numbers': [1, 365, 1001]}, 'Font': {'weight': [100, 900, 400], 'style': [0, 1, 0], 'face': [0, 1, 0]},
+    'CFrame': {'rot': [0, 0, 0]}, 'BrickColor': {'numbers': [1, 365, 1001]}, 'Font': {'weight': [100, 900, 400], 'style': [0, 1, 0], 'face': [0, 1, 0]}, 'OptionalCFrame': {'present': [False, True, True]},
 }
 
 
@@ -64,7 +64,7 @@ def c04_groups(tier):
              cases=[dict(what='tree', shape=s, classes=c, meta=True, unknown=len(set(c)) < 3, service=len(set(c)) < 3, row=r) for s, c in shapes for r in range(math.factorial(len(s)))], budget=1500),
         dict(id='M9.prop', desc='PROP column of each wire type written by a spec encoder (docs/binary.md) decodes to bit-identical values under the given name, for unknown classes',
              bounds='2 instances, every value symbolic (all bit patterns); kinds: %s' % ', '.join(kinds),
-             cases=[dict(what='prop', kind=k, n=2, opts=KIND_OPTS.get(k, {})) for k in kinds if k != 'Content'] +
+             cases=[dict(what='prop', kind=k, n=2, opts=KIND_OPTS.get(k, {})) for k in kinds if k != 'Content' and k not in B.NOSPEC] +
                    [dict(what='prop', kind='Content', n=len(t), opts={'types': t}) for t in ([0, 1], [1, 1], [2, 2], [2, 1, 2])], budget=600),
         long_group(),
         dict(id='M9.widen', desc='Int32 column for a property the database declares Int64, Float32 column for one declared Float64: loaded widened exactly (NaN stays NaN)',
@@ -119,7 +119,7 @@ SER_TREES = [
 
 def ser_groups(tier, prop):
     """serializer-side obligations (vlib/mirsym/sercheck.py); prop = 'C03' (written bytes vs. docs/binary.md) or 'C01' (write + read)"""
-    kinds = [k for k in B.FIELDS if k not in ('Content', 'Ref')]
+    kinds = [k for k in B.FIELDS if k not in ('Content', 'Ref') and not (prop == 'C03' and k in B.NOSPEC)]
     what = 'written file = what docs/binary.md specifies' if prop == 'C03' else 'write then read gives back the same DOM'
     return [
         dict(id='M3.values' if prop == 'C03' else 'M1.values',
@@ -129,6 +129,7 @@ def ser_groups(tier, prop):
              bounds='unknown class, compression off, 2 instances; kinds: %s (CFrame: general matrices, entries of magnitude >= 2)' % ', '.join(kinds),
              cases=[dict(what='ser', kind=k, n=2, opts=KIND_OPTS.get(k, {}), prop=prop) for k in kinds] +
                    ([] if tier == 'quick' else [dict(what='ser', kind=k, n=3, opts=KIND_OPTS3.get(k, {}), prop=prop) for k in kinds]), budget=900),
+        ser_long_group(prop),
         dict(id='M3.defaults' if prop == 'C03' else 'M1.defaults',
              desc='one instance carries the property, the other does not: ' + ('the column still has exactly one value per instance and is a valid encoding (the missing one is a constant default)' if prop == 'C03'
                                                                               else 'the carrier reads back its value bit-identically; the other gains a value of the same type (documented normalisation)'),
@@ -155,3 +156,11 @@ def compressed_group():
     return dict(id='M8.compressed', desc='Chunk::decode on compressed chunks: whenever the decompressor (contract stub: fails, or returns the announced number of arbitrary bytes) succeeds, the chunk is accepted with exactly those bytes; no other reason to reject a well-formed compressed chunk',
                 bounds='compressed length 1 or 5 (symbolic bytes: LZ4 / Zstandard chosen by the magic check), announced length in %s (incl. c, c+1 for the constants %s of chunk.rs)' % (us, consts),
                 cases=[dict(what='cchunk', clen=c, ulen=u, range_limit=u + 8) for c in (1, 5) for u in us], budget=600)
+
+
+def ser_long_group(prop):
+    sizes, consts = boundary_sizes(['serializer/state.rs', 'deserializer/state.rs', 'rbx_binary/src/core.rs', 'rbx_binary/src/chunk.rs'])
+    return dict(id='M3.long' if prop == 'C03' else 'M1.long',
+                desc='String / NumberSequence / ColorSequence values with lengths at the boundary constants of the writer and reader code: ' + ('written completely, as specified' if prop == 'C03' else 'read back completely and bit-identically'),
+                bounds='1 instance; lengths %s (65 and c, c+1 for the constants %s mined from the MIR)' % (sizes, consts),
+                cases=[dict(what='ser', kind=k, n=1, opts={'len': [n]}, range_limit=n + 8, prop=prop) for k in ('String', 'NumberSequence', 'ColorSequence') for n in sizes], budget=900)
